@@ -863,6 +863,15 @@ def install(w):
             if 'std::sync' in (c.typath or '') or c.typath in ('Mutex', 'std::sync::Mutex'):
                 return ok(g)
         return g
+    def condvar_wait_while(ex, c, a):
+        # single-threaded: if the predicate holds nobody can ever change it -> the call blocks forever
+        guard = a[1].fields[0] if isinstance(a[1], Enum) else a[1]
+        if ex.branch(ex.call_value(a[2], [Ref(guard.slot, 0)]), 'condvar predicate'):
+            ex.env['condvar_blocked'] = True
+        return ok(guard)
+    M['Condvar::wait_while'] = condvar_wait_while
+    M['Condvar::notify_all'] = lambda ex, c, a: unit()
+    M['Condvar::notify_one'] = lambda ex, c, a: unit()
     M['Mutex::lock'] = mutex_lock
     M['RwLock::write'] = mutex_lock
     M['RwLock::read'] = mutex_lock
